@@ -1,8 +1,22 @@
 // Unit "Service": generated histories over services/alert.Service on a real Bolt store, with
 // handler specs (publish, log, aggregate) registered through the service's API functions.
+//
+// Generator: persist-topics on (3 of 4 cases) or off; steps collect / UpdateEvent / register, deregister, update
+// handler spec (publish with 1-3 private target topics, or log; match expressions) / anonymous handlers /
+// close, restore, restart (close + re-register + restore, the sequence of alert.go runAlert), delete topic.
+// 1 case in 16 additionally holds, somewhere in the history, the triple "register a publish handler with 2-3
+// targets; block the recording handler of one of its targets; burst of topic-buffer-length + 1..40 events":
+// Collect on the blocked target then reports a full queue, which must not keep the event from the other targets.
+//
+// Oracle: map model of the event states per topic (source and target topics) and one ledger per recording handler
+// (exactly once, FIFO, previous level), a log-file comparison per log handler, conservation of counts for the
+// aggregate handler. Where the statement leaves something open both readings are accepted (see serviceAssumptions):
+// OK states across close/restore, all states across a close without persistence, the previous level of the first
+// event of an id on a publish target, the events a blocked handler's full queue refuses.
 package c09
 
 import (
+	"bytes"
 	"encoding/json"
 	"fmt"
 	"os"
@@ -180,7 +194,7 @@ func genMatch(t *rapid.T, depth int) MExpr {
 // ---------------------------------------------------------------- case
 
 type SOp struct {
-	K     string `json:"k"` // collect update reg dereg upd anon deanon close restore delete
+	K     string `json:"k"` // collect update reg dereg upd anon deanon close restore restart delete gate burst
 	T     int    `json:"t"`
 	I     int    `json:"i,omitempty"`
 	L     int    `json:"l,omitempty"`
@@ -188,10 +202,13 @@ type SOp struct {
 	Tk    int    `json:"tk,omitempty"`
 	D     int    `json:"d,omitempty"`
 	NoExt bool   `json:"noext,omitempty"`
-	Hs    int    `json:"hs,omitempty"` // collect: index into evHosts (0 = the event has no tag host)
+	Hs    int    `json:"hs,omitempty"`   // collect: index into evHosts (0 = the event has no tag host)
 	H     int    `json:"h,omitempty"`    // handler id index
 	H2    int    `json:"h2,omitempty"`   // upd: id index of the new spec
 	Kind  int    `json:"kind,omitempty"` // 0 publish, 1 log
+	Nt    int    `json:"nt,omitempty"`   // reg/upd of a publish handler: number of target topics beyond the first
+	J     int    `json:"j,omitempty"`    // gate: selector of the target topic of the publish handler
+	N     int    `json:"n,omitempty"`    // burst: events beyond the queue length
 	Match MExpr  `json:"match"`
 	P     int    `json:"p"`
 	M     int    `json:"m"`
@@ -219,21 +236,19 @@ var (
 const (
 	anonSlots   = 2
 	aggInterval = 20 * time.Millisecond
+	svcBuffer   = alert.MinimumEventBufferSize // topic-buffer-length: the smallest queue the service accepts
 )
 
-const serviceRule = "rapid: histories of collect/update/register-spec/deregister-spec/update-spec/anonymous handlers/close/restore/delete over services/alert.Service (Bolt store), " +
-	"publish+log(+aggregate) handler specs with generated match expressions, queries after every step; " +
+const serviceRule = "rapid: histories of collect/update/register-spec/deregister-spec/update-spec/anonymous handlers/close/restore/restart/delete over services/alert.Service (Bolt store, persist-topics on or off), " +
+	"publish (1-3 target topics) +log(+aggregate) handler specs with generated match expressions, queries after every step; 1 case in 16 blocks the handler of one target topic of a publish handler and collects more events than its queue holds; " +
 	"non-trivial = some topic held >=2 event ids with different levels in unsorted insertion order AND at least one event was matched and one rejected by a match expression; distinct by case hash"
 
-func genSOp(persist bool) func(t *rapid.T) SOp {
+func genSOp() func(t *rapid.T) SOp {
 	return func(t *rapid.T) SOp {
 		op := SOp{T: rapid.SampledFrom([]int{0, 0, 0, 0, 0, 1, 1, 2}).Draw(t, "topic")}
 		k := rapid.IntRange(0, 99).Draw(t, "kind")
-		if !persist && k >= 90 && k < 96 {
-			k = 0 // close/restore only with persisted topics
-		}
 		switch {
-		case k < 48:
+		case k < 46:
 			op.K = "collect"
 			op.I = rapid.IntRange(0, 3).Draw(t, "id")
 			op.L = rapid.IntRange(0, 3).Draw(t, "level")
@@ -242,39 +257,46 @@ func genSOp(persist bool) func(t *rapid.T) SOp {
 			op.D = rapid.IntRange(0, len(evDurs)-1).Draw(t, "dur")
 			op.NoExt = rapid.IntRange(0, 9).Draw(t, "noext") == 9
 			op.Hs = rapid.IntRange(0, 3).Draw(t, "host")
-		case k < 53:
+		case k < 51:
 			op.K = "update"
 			op.I = rapid.IntRange(0, 3).Draw(t, "id")
 			op.L = rapid.IntRange(0, 3).Draw(t, "level")
-		case k < 68:
+		case k < 66:
 			op.K = "reg"
-		case k < 73:
+		case k < 71:
 			op.K = "dereg"
 			op.H2 = rapid.IntRange(0, 2).Draw(t, "unknown") // 2: an id that may not be registered
-		case k < 80:
+		case k < 78:
 			op.K = "upd"
 			op.H2 = rapid.IntRange(0, len(specIDs)-1).Draw(t, "h2")
-		case k < 86:
+		case k < 84:
 			op.K = "anon"
-		case k < 90:
+		case k < 88:
 			op.K = "deanon"
 			op.H2 = rapid.IntRange(0, 2).Draw(t, "unknown") // 2: a handler that may not be registered
-		case k < 93:
+		case k < 91:
 			op.K = "close"
-		case k < 96:
+		case k < 94:
 			op.K = "restore"
+		case k < 96:
+			// what a task that is stopped and started again does with its topic (alert.go runAlert): close, register
+			// its own handlers again (H2 = 1: one of them), restore
+			op.K = "restart"
+			op.H2 = rapid.IntRange(0, 1).Draw(t, "reanon")
 		default:
 			op.K = "delete"
 		}
 		switch op.K {
 		case "reg", "dereg", "upd":
 			op.H = rapid.IntRange(0, len(specIDs)-1).Draw(t, "h")
-		case "anon", "deanon":
+		case "anon", "deanon", "restart":
 			op.H = rapid.IntRange(0, anonSlots-1).Draw(t, "slot")
 		}
 		if op.K == "reg" || op.K == "upd" {
 			if rapid.IntRange(0, 9).Draw(t, "logkind") >= 7 {
 				op.Kind = 1
+			} else {
+				op.Nt = rapid.SampledFrom([]int{0, 0, 1, 1, 2}).Draw(t, "targets")
 			}
 			if rapid.IntRange(0, 3).Draw(t, "hasmatch") > 0 {
 				op.Match = genMatch(t, 0)
@@ -309,7 +331,21 @@ func genService(t *rapid.T) ServiceCase {
 	}
 	// rapid prefers short slices: a drawn minimum length keeps long histories frequent, and shrinks away first
 	min := rapid.IntRange(1, 24).Draw(t, "minOps")
-	c.Ops = rapid.SliceOfN(rapid.Custom(genSOp(c.Persist)), min, 30).Draw(t, "ops")
+	c.Ops = rapid.SliceOfN(rapid.Custom(genSOp()), min, 30).Draw(t, "ops")
+	if rapid.IntRange(0, 15).Draw(t, "burst") == 15 { // the largest value: shrinking moves away from bursts
+		// somewhere in the history: a publish handler with 2-3 target topics, the handler of one of the targets is
+		// slow (blocked), and more events than its queue holds
+		tp := rapid.IntRange(0, 1).Draw(t, "burstTopic")
+		at := rapid.IntRange(0, len(c.Ops)).Draw(t, "burstAt")
+		hid := rapid.IntRange(0, len(specIDs)-1).Draw(t, "h")
+		triple := []SOp{{K: "reg", T: tp, H: hid, Nt: rapid.IntRange(1, 2).Draw(t, "targets")},
+			{K: "gate", T: tp, H: hid, J: rapid.IntRange(0, 2).Draw(t, "gateTarget")},
+			{K: "burst", T: tp, I: rapid.IntRange(0, 3).Draw(t, "id"), L: rapid.IntRange(0, 3).Draw(t, "level"), N: rapid.IntRange(1, 40).Draw(t, "extra"),
+				Nm: rapid.IntRange(0, 1).Draw(t, "name"), Tk: rapid.IntRange(0, 1).Draw(t, "task"), D: rapid.IntRange(0, len(evDurs)-1).Draw(t, "dur"), Hs: rapid.IntRange(0, 3).Draw(t, "host")}}
+		ops := append([]SOp(nil), c.Ops[:at]...)
+		ops = append(ops, triple...)
+		c.Ops = append(ops, c.Ops[at:]...)
+	}
 	return c
 }
 
@@ -338,7 +374,7 @@ func (v serviceView) topicStates(pattern string, min int) map[string]alert.Topic
 // Findings of this unit. While a finding is open its input class is avoided by construction (counted in the
 // evidence); saved witnesses carry "witness": true and are run as they are. Once a finding is repaired in the
 // repository its class is put back into the search by setting the constant to false (to try a repair in a
-// scratch worktree: VERIF_C09_INCLUDE=delete,update,drain).
+// scratch worktree: VERIF_C09_INCLUDE=delete,update,drain,restoremark).
 const (
 	// Service.DeleteTopic removes the running topic together with the registrations of its handler specs, but
 	// keeps the specs: they are still listed and stored, yet receive nothing until the daemon restarts.
@@ -354,6 +390,13 @@ const (
 	// Avoided by letting these steps start only when no handler goroutine is inside Service.Collect.
 	openDrainWhilePublishing = true
 	sigDrainDeadlock         = "service/deadlock-draining-publish-handler"
+	// Service.RestoreTopic restores a closed topic but leaves it marked as closed, so the next Collect on it restores it
+	// a second time from the store. With persist-topics disabled the store is empty: the event states that UpdateEvent
+	// set in between (alert.go restoreEvent does that when a restarted task meets a group again) are discarded.
+	// Avoided by generating no UpdateEvent between the RestoreTopic of a closed topic and the next Collect on it
+	// when persist-topics is disabled.
+	openRestoreKeepsClosedMark = false // repaired in /repo by a fix: commit
+	sigUpdateLostAfterRestore  = "service/update-event-lost-after-restore-topic"
 )
 
 var (
@@ -361,6 +404,7 @@ var (
 	excludeDeleteWithSpecs      = openDeleteWithSpecs && !strings.Contains(include, "delete")
 	excludeUpdateOntoExistingID = openUpdateOntoExistingID && !strings.Contains(include, "update")
 	excludeDrainWhilePublishing = openDrainWhilePublishing && !strings.Contains(include, "drain")
+	excludeUpdateAfterRestore   = openRestoreKeepsClosedMark && !strings.Contains(include, "restoremark")
 )
 
 var svcRec *kit.Rec
@@ -371,12 +415,35 @@ type mSpec struct {
 	id           string
 	kind         string // publish | log | aggregate
 	match        MExpr
-	sink         string  // publish / aggregate target topic
-	lg           *ledger // recorder on the sink (publish)
+	sink         string    // aggregate: target topic
+	targets      []*target // publish: target topics, in the order of the handler's option "topics"
 	logPath      string
 	logExp       []expEntry
 	closed       bool
 	logSeen      int // lines verified when the spec was closed
+}
+
+// target is one target topic of a publish handler: a private topic that carries an anonymous recording handler.
+type target struct {
+	topic string
+	lg    *ledger
+}
+
+func (sp *mSpec) publishesTo(topic string) bool {
+	for _, tg := range sp.targets {
+		if tg.topic == topic {
+			return true
+		}
+	}
+	return false
+}
+
+func (sp *mSpec) topics() []string {
+	var ts []string
+	for _, tg := range sp.targets {
+		ts = append(ts, tg.topic)
+	}
+	return ts
 }
 
 type srcTopic struct {
@@ -385,6 +452,8 @@ type srcTopic struct {
 	anon         [anonSlots]*ledger
 	closed       bool
 	closedStates *mTopic
+	reopened     bool // the topic was closed at least once
+	restoredOpen bool // RestoreTopic has restored the closed topic and nothing was collected on it since
 }
 
 // specIDs lists the ids of the topic's generated handler specs (not the aggregate handler), sorted.
@@ -400,6 +469,7 @@ func (st *srcTopic) specIDs() []string {
 
 type svcHarness struct {
 	witness  bool
+	persist  bool
 	x        *ctx
 	as       *salert.Service
 	dir      string
@@ -412,6 +482,8 @@ type svcHarness struct {
 	logSeq   int
 	matched  bool
 	rejected bool
+	// an UpdateEvent was made between the RestoreTopic of a closed topic and the next Collect on it, without persistence
+	updatedAfterRestore bool
 	// aggregate
 	agg         *mSpec
 	aggTopic    string
@@ -430,7 +502,7 @@ func (h *svcHarness) handlerSpec(topic string, sp *mSpec) salert.HandlerSpec {
 	hs := salert.HandlerSpec{ID: sp.id, Topic: topic, Kind: sp.kind, Match: sp.match.render()}
 	switch sp.kind {
 	case "publish":
-		hs.Options = map[string]interface{}{"topics": []string{sp.sink}}
+		hs.Options = map[string]interface{}{"topics": sp.topics()}
 	case "log":
 		hs.Options = map[string]interface{}{"path": sp.logPath}
 	case "aggregate":
@@ -439,9 +511,9 @@ func (h *svcHarness) handlerSpec(topic string, sp *mSpec) salert.HandlerSpec {
 	return hs
 }
 
-// newSpec prepares a spec with a private target: a fresh sink topic carrying an anonymous recording
+// newSpec prepares a spec with private targets: 1+extra fresh sink topics, each carrying an anonymous recording
 // handler (publish), or a fresh log file.
-func (h *svcHarness) newSpec(topic, id string, kind int, match MExpr) *mSpec {
+func (h *svcHarness) newSpec(topic, id string, kind int, match MExpr, extra int) *mSpec {
 	sp := &mSpec{id: id, match: match}
 	if kind == 1 {
 		sp.kind = "log"
@@ -449,11 +521,18 @@ func (h *svcHarness) newSpec(topic, id string, kind int, match MExpr) *mSpec {
 		sp.logPath = filepath.Join(h.dir, fmt.Sprintf("log%d.json", h.logSeq))
 	} else {
 		sp.kind = "publish"
-		h.sinkSeq++
-		sp.sink = fmt.Sprintf("k%d", h.sinkSeq)
-		h.model[sp.sink] = newMTopic()
-		sp.lg = h.newLedger(fmt.Sprintf("recorder on %s (target of publish handler %s/%s)", sp.sink, topic, id), sp.sink)
-		h.as.RegisterAnonHandler(sp.sink, sp.lg.rec)
+		n := 1 + extra%3
+		for j := 0; j < n; j++ {
+			h.sinkSeq++
+			sink := fmt.Sprintf("k%d", h.sinkSeq)
+			h.model[sink] = newMTopic()
+			lg := h.newLedger(fmt.Sprintf("recorder on %s (target %d of %d of publish handler %s/%s)", sink, j+1, n, topic, id), sink)
+			h.as.RegisterAnonHandler(sink, lg.rec)
+			sp.targets = append(sp.targets, &target{topic: sink, lg: lg})
+		}
+		if n > 1 {
+			h.x.label("publish-targets>=2")
+		}
 	}
 	h.specs = append(h.specs, sp)
 	return sp
@@ -465,11 +544,22 @@ func (h *svcHarness) closeSpec(sp *mSpec, why string) {
 	sp.closed = true
 	switch sp.kind {
 	case "publish":
-		lg := sp.lg
-		waitFor(func() bool { return lg.rec.count() >= len(lg.exp) }, deliveryBound)
-		lg.closed = true
-		verifyLedger(h.x, lg, nil, map[string]int{})
-		lg.verified = lg.rec.count()
+		for _, tg := range sp.targets {
+			lg := tg.lg
+			if lg.gated {
+				// the handler of this target is blocked: the events are counted on the topic now, the ledger is compared at the end
+				h.awaitCollected(lg)
+				lg.closed = true
+				continue
+			}
+			waitFor(func() bool { return lg.rec.count() >= len(lg.exp) }, deliveryBound)
+			lg.closed = true
+			verifyLedger(h.x, lg, nil, map[string]int{})
+			lg.verified = lg.rec.count()
+			if h.x.failed() {
+				break
+			}
+		}
 	case "log":
 		h.verifyLog(sp)
 	}
@@ -528,7 +618,7 @@ func (h *svcHarness) verifyLog(sp *mSpec) {
 			h.x.fail("delivery/order", "log handler %s (match %q): entry %d is %s[%s:%s], expected %s[%s:%s]\nexpected: %s\nobserved: %s", sp.id, sp.match.render(), i, o.Msg, o.ID, lvl(o.Level), e.Msg, e.ID, lvl(e.Level), fmtExp(sp.logExp), fmtObs(obs))
 			return
 		}
-		if o.Prev != e.Prev {
+		if o.Prev != e.Prev && o.Prev != e.PrevAlt {
 			h.x.fail("delivery/previous-level", "log handler %s: event %s (id %s level %s) logged with previousLevel %s, the preceding event with that id had level %s", sp.id, o.Msg, o.ID, lvl(o.Level), lvl(o.Prev), lvl(e.Prev))
 			return
 		}
@@ -545,6 +635,11 @@ func (h *svcHarness) restoreModel(st *srcTopic) {
 				// Collect deletes an OK state from the store, UpdateEvent stores it: either is accepted
 				s.Optional = true
 			}
+			if !h.persist {
+				// persist-topics disabled: the statement does not say whether a closed topic remembers its
+				// event states; both are accepted (for the listing and for the previous level of the next event)
+				s.Optional = true
+			}
 			mt.set(id, s)
 		}
 	}
@@ -559,19 +654,19 @@ func (h *svcHarness) modelCollect(st *srcTopic, ev mEvent) {
 		h.x.label("collect-restores-closed-topic")
 	}
 	mt := h.model[st.name]
-	prev := mt.prevLevel(ev.id)
+	prev, alt := mt.prevLevel(ev.id), mt.prevAlt(ev.id)
 	mt.set(ev.id, mState{Level: ev.level, Time: ev.time, Msg: ev.msg})
 	if mt.unsortedInsertion() {
 		h.x.label("unsorted-insertion")
 	}
 	for _, lg := range st.anon {
 		if lg != nil {
-			lg.exp = append(lg.exp, expEntry{Msg: ev.msg, ID: ev.id, Level: ev.level, Prev: prev, PrevAlt: -1, Time: ev.time})
+			lg.exp = append(lg.exp, expEntry{Msg: ev.msg, ID: ev.id, Level: ev.level, Prev: prev, PrevAlt: alt, Time: ev.time})
 		}
 	}
 	for _, id := range kit.SortedKeys(st.specs) {
 		sp := st.specs[id]
-		ok := sp.match.eval(ev, prev)
+		ok := sp.match.eval(ev, prev) // the same under the second admissible previous level: see ambiguous
 		if sp.match.Op != "" {
 			if ok {
 				h.matched = true
@@ -584,20 +679,24 @@ func (h *svcHarness) modelCollect(st *srcTopic, ev mEvent) {
 		}
 		switch sp.kind {
 		case "publish":
-			sm := h.model[sp.sink]
-			e := expEntry{Msg: ev.msg, ID: ev.id, Level: ev.level, PrevAlt: -1, Time: ev.time}
-			if _, has := sm.states[ev.id]; has {
-				e.Prev = sm.prevLevel(ev.id)
-			} else {
-				// first event with this id on the target topic: the statement does not say whether the
-				// previous level is OK (no preceding event there) or the one it had on the source topic
-				e.Prev, e.PrevAlt = 0, prev
+			// republished to every target topic of the handler
+			for _, tg := range sp.targets {
+				sm := h.model[tg.topic]
+				e := expEntry{Msg: ev.msg, ID: ev.id, Level: ev.level, PrevAlt: -1, Time: ev.time}
+				if _, has := sm.states[ev.id]; has {
+					e.Prev = sm.prevLevel(ev.id)
+				} else {
+					// first event with this id on the target topic: the statement does not say whether the
+					// previous level is OK (no preceding event there) or the one it had on the source topic
+					// (which is prev, or OK under the second reading of prev)
+					e.Prev, e.PrevAlt = 0, prev
+				}
+				sm.set(ev.id, mState{Level: ev.level, Time: ev.time, Msg: ev.msg})
+				tg.lg.exp = append(tg.lg.exp, e)
 			}
-			sm.set(ev.id, mState{Level: ev.level, Time: ev.time, Msg: ev.msg})
-			sp.lg.exp = append(sp.lg.exp, e)
 		case "log":
 			if !ev.noExt { // log is an external handler: events flagged NoExternal are not passed to it
-				sp.logExp = append(sp.logExp, expEntry{Msg: ev.msg, ID: ev.id, Level: ev.level, Prev: prev, PrevAlt: -1, Time: ev.time})
+				sp.logExp = append(sp.logExp, expEntry{Msg: ev.msg, ID: ev.id, Level: ev.level, Prev: prev, PrevAlt: alt, Time: ev.time})
 			}
 		case "aggregate":
 			h.aggExpected++
@@ -606,6 +705,169 @@ func (h *svcHarness) modelCollect(st *srcTopic, ev mEvent) {
 			}
 		}
 	}
+}
+
+// ambiguous: the state of the event's id may have been forgotten by a close without persistence, and a match
+// expression of a handler of the topic decides differently under the two admissible previous levels.
+func (h *svcHarness) ambiguous(st *srcTopic, ev mEvent) bool {
+	prev, alt := h.peekPrev(st, ev.id)
+	if alt < 0 {
+		return false
+	}
+	for _, sp := range st.specs {
+		if sp.match.eval(ev, prev) != sp.match.eval(ev, alt) {
+			return true
+		}
+	}
+	return false
+}
+
+// peekPrev: the admissible previous levels of the next event with that id on the topic (alt -1: only one).
+func (h *svcHarness) peekPrev(st *srcTopic, id string) (prev, alt int) {
+	states, all := h.model[st.name].states, false
+	if st.closed { // the topic would be restored first
+		if st.closedStates == nil {
+			return 0, -1
+		}
+		states, all = st.closedStates.states, !h.persist
+	}
+	s, ok := states[id]
+	if !ok {
+		return 0, -1
+	}
+	if s.Level != 0 && (s.Optional || all) {
+		return s.Level, 0
+	}
+	return s.Level, -1
+}
+
+// unobservable: some handler of the topic would not be handed the event (its match expression is false, or it is an
+// external handler and the event is flagged NoExternal): the progress of that handler cannot be observed.
+func (h *svcHarness) unobservable(st *srcTopic, ev mEvent) bool {
+	prev, _ := h.peekPrev(st, ev.id)
+	for _, sp := range st.specs {
+		if !sp.match.eval(ev, prev) || (sp.kind == "log" && ev.noExt) {
+			return true
+		}
+	}
+	return false
+}
+
+// caughtUp: everything the model expects of the recorder has arrived; for a blocked recorder: has been
+// collected on its topic (TopicState.Collected counts the events collected on a topic).
+func (h *svcHarness) caughtUp(lg *ledger) bool {
+	if lg.gated {
+		ts, ok, _ := h.as.TopicState(lg.rec.topic)
+		return ok && ts.Collected >= int64(len(lg.exp))
+	}
+	return lg.rec.count() >= len(lg.exp)
+}
+
+// awaitCollected waits (bounded) until every event expected on the target topic of a blocked recorder has been collected there.
+func (h *svcHarness) awaitCollected(lg *ledger) {
+	if !waitFor(func() bool { return h.caughtUp(lg) }, deliveryBound) {
+		h.failCollected(lg)
+	}
+}
+
+func (h *svcHarness) failCollected(lg *ledger) {
+	ts, _, _ := h.as.TopicState(lg.rec.topic)
+	sig := "delivery/missing"
+	if lg.missSig != "" {
+		sig = lg.missSig
+	}
+	h.x.fail(sig, "%s: the topic has collected %d events after %v, %d events were collected on the source topic while the publish handler was registered and its match condition held\nexpected: %s",
+		lg.rec.name, ts.Collected, deliveryBound, len(lg.exp), fmtExp(lg.exp))
+}
+
+func countLines(path string) int {
+	b, err := os.ReadFile(path)
+	if err != nil {
+		return 0
+	}
+	return bytes.Count(b, []byte{'\n'})
+}
+
+// pace keeps a burst from overflowing the queues of the handlers of the source topic (which would make Collect
+// on the source topic report failed deliveries): it waits until what was collected so far has been handled.
+func (h *svcHarness) pace(st *srcTopic) {
+	waitFor(func() bool {
+		for _, lg := range h.ledgers {
+			if !lg.closed && !h.caughtUp(lg) {
+				return false
+			}
+		}
+		return true
+	}, deliveryBound)
+	for _, id := range kit.SortedKeys(st.specs) {
+		if sp := st.specs[id]; sp.kind == "log" {
+			waitFor(func() bool { return countLines(sp.logPath) >= len(sp.logExp) }, deliveryBound)
+		}
+	}
+	if h.agg != nil && st.name == h.aggTopic {
+		waitFor(func() bool { s, _ := h.aggSum(); return s >= h.aggExpected }, deliveryBound)
+	}
+}
+
+func (h *svcHarness) releaseGates() {
+	for _, lg := range h.ledgers {
+		lg.rec.release()
+	}
+}
+
+func (st *srcTopic) publishSpecs() []*mSpec {
+	var pubs []*mSpec
+	for _, id := range st.specIDs() {
+		if sp := st.specs[id]; sp.kind == "publish" {
+			pubs = append(pubs, sp)
+		}
+	}
+	return pubs
+}
+
+func (st *srcTopic) hasGatedTarget() bool {
+	for _, sp := range st.publishSpecs() {
+		for _, tg := range sp.targets {
+			if tg.lg.gated {
+				return true
+			}
+		}
+	}
+	return false
+}
+
+// collectOne collects one event on the topic; paced: only if the progress of every handler of the topic can be
+// observed by this event. It reports whether the event was collected.
+func (h *svcHarness) collectOne(st *srcTopic, op SOp, idIdx, level int, paced bool) bool {
+	x := h.x
+	n := h.serial
+	h.serial++
+	ev := mEvent{id: eventIDs[idIdx%4], msg: fmt.Sprintf("m%d", n), level: level % 4, time: baseTime + n, dur: evDurs[op.D%len(evDurs)],
+		name: evNames[op.Nm%2], task: evTasks[op.Tk%2], host: evHosts[op.Hs%len(evHosts)], noExt: op.NoExt}
+	if h.ambiguous(st, ev) {
+		x.label("skipped:match-depends-on-a-state-from-before-an-unpersisted-close")
+		return false
+	}
+	if paced && h.unobservable(st, ev) {
+		return false
+	}
+	var tags map[string]string
+	if ev.host != "" {
+		tags = map[string]string{"host": ev.host, "dc": "x"}
+		x.label("event-with-tag")
+	}
+	if !h.persist && st.reopened && len(st.specs) > 0 {
+		x.label("event-for-spec-handler-after-unpersisted-close")
+	}
+	h.modelCollect(st, ev)
+	st.restoredOpen = false
+	err := h.as.Collect(alert.Event{Topic: st.name, NoExternal: ev.noExt,
+		State: alert.EventState{ID: ev.id, Message: ev.msg, Time: time.Unix(ev.time, 0).UTC(), Duration: ev.dur, Level: alert.Level(ev.level)},
+		Data:  alert.EventData{Name: ev.name, TaskName: ev.task, Tags: tags}})
+	if err != nil {
+		x.fail("collect/error", "Collect of event %s on topic %s returned %v", ev.msg, st.name, err)
+	}
+	return true
 }
 
 // handlersIdle: no goroutine is inside Service.Collect (the harness calls Collect only synchronously, so
@@ -659,6 +921,22 @@ func (h *svcHarness) apply(op SOp) {
 		}
 	case "restore":
 		st = h.pickTopic(op.T, func(t *srcTopic) bool { return t.closed })
+	case "gate":
+		st = h.pickTopic(op.T, func(t *srcTopic) bool { return len(t.publishSpecs()) > 0 })
+	case "burst":
+		st = h.pickTopic(op.T, func(t *srcTopic) bool { return t.hasGatedTarget() })
+	case "restart":
+		// close, register one of the task's own handlers again (H2 = 1), restore: alert.go runAlert of the old and the new task
+		x.label("op:restart")
+		t := op.T % len(srcNames)
+		h.apply(SOp{K: "close", T: t})
+		if op.H2 == 1 && !x.failed() {
+			h.apply(SOp{K: "anon", T: t, H: op.H})
+		}
+		if !x.failed() {
+			h.apply(SOp{K: "restore", T: t})
+		}
+		return
 	}
 	name := st.name
 	mt := h.model[name]
@@ -669,27 +947,68 @@ func (h *svcHarness) apply(op SOp) {
 	}
 	switch op.K {
 	case "collect":
-		n := h.serial
-		h.serial++
-		ev := mEvent{id: eventIDs[op.I%4], msg: fmt.Sprintf("m%d", n), level: op.L % 4, time: baseTime + n, dur: evDurs[op.D%len(evDurs)],
-			name: evNames[op.Nm%2], task: evTasks[op.Tk%2], host: evHosts[op.Hs%len(evHosts)], noExt: op.NoExt}
-		var tags map[string]string
-		if ev.host != "" {
-			tags = map[string]string{"host": ev.host, "dc": "x"}
-			x.label("event-with-tag")
+		h.collectOne(st, op, op.I, op.L, false)
+	case "burst":
+		// more events than a handler queue holds (topic-buffer-length), ids and levels varying. Only events that every
+		// handler of the topic is handed (match expressions) are collected: the harness has to see the progress of every
+		// handler of the source topic to keep their queues from overflowing (which Collect would report as an error).
+		total, done := svcBuffer+op.N, 0
+		for i := 0; done < total && i < 4*total && !x.failed(); i++ {
+			if h.collectOne(st, op, op.I+i, op.L+i/3, true) {
+				if done++; done%250 == 0 {
+					h.pace(st)
+				}
+			}
 		}
-		h.modelCollect(st, ev)
-		err := h.as.Collect(alert.Event{Topic: name, NoExternal: ev.noExt,
-			State: alert.EventState{ID: ev.id, Message: ev.msg, Time: time.Unix(ev.time, 0).UTC(), Duration: ev.dur, Level: alert.Level(ev.level)},
-			Data:  alert.EventData{Name: ev.name, TaskName: ev.task, Tags: tags}})
-		if err != nil {
-			x.fail("collect/error", "Collect of event %s on topic %s returned %v", ev.msg, name, err)
+		if done < total {
+			x.label("burst-cut-short-by-match-expressions")
+		}
+	case "gate":
+		// the handler of one target topic of a publish handler of this topic becomes slow: it blocks until the end of the history
+		pubs := st.publishSpecs()
+		if len(pubs) == 0 {
+			x.label("gate-skipped")
+			return
+		}
+		sp := st.specs[specIDs[op.H%len(specIDs)]]
+		if sp == nil || sp.kind != "publish" {
+			sp = pubs[op.H%len(pubs)]
+		}
+		j := op.J % len(sp.targets)
+		lg := sp.targets[j].lg
+		if lg.gated {
+			return
+		}
+		// its queue is empty when it blocks: everything handed to it so far has been handled
+		waitFor(func() bool { return lg.rec.count() >= len(lg.exp) }, deliveryBound)
+		verifyLedger(x, lg, nil, map[string]int{})
+		if x.failed() {
+			return
+		}
+		lg.gated, lg.gateIdx, lg.queueLen = true, len(lg.exp), svcBuffer
+		lg.rec.setGate()
+		if j < len(sp.targets)-1 {
+			x.label("slow-handler-on-earlier-target")
+		} else {
+			x.label("slow-handler-on-last-target")
 		}
 	case "update":
 		// callers' precondition: the topic is known to the API (and, narrowed here, not closed)
 		if st.closed || !(serviceView{h.as}).exists(name) {
 			x.label("update-skipped")
 			return
+		}
+		if st.restoredOpen && !h.persist {
+			if excludeUpdateAfterRestore && !h.witness {
+				// known finding service/update-event-lost-after-restore-topic: avoided by construction
+				x.label("excluded:update-event-between-restore-topic-and-collect-without-persistence")
+				if svcRec != nil {
+					svcRec.Exclude("update-event-between-restore-topic-and-collect-without-persistence")
+				}
+				return
+			}
+			x.label("update-event-between-restore-topic-and-collect-without-persistence")
+			h.updatedAfterRestore = true
 		}
 		n := h.serial
 		h.serial++
@@ -709,7 +1028,7 @@ func (h *svcHarness) apply(op SOp) {
 			}
 			return
 		}
-		sp := h.newSpec(name, id, op.Kind, op.Match)
+		sp := h.newSpec(name, id, op.Kind, op.Match, op.Nt)
 		if err := h.as.RegisterHandlerSpec(h.handlerSpec(name, sp)); err != nil {
 			x.fail("spec/rejected", "RegisterHandlerSpec(%+v) returned %v", h.handlerSpec(name, sp), err)
 			return
@@ -749,7 +1068,7 @@ func (h *svcHarness) apply(op SOp) {
 			}
 			return
 		}
-		nw := h.newSpec(name, newID, op.Kind, op.Match)
+		nw := h.newSpec(name, newID, op.Kind, op.Match, op.Nt)
 		err := h.as.UpdateHandlerSpec(oldHS, h.handlerSpec(name, nw))
 		if newID != oldID && other != nil {
 			// the new id belongs to another handler of the topic: either the update is refused and
@@ -765,8 +1084,8 @@ func (h *svcHarness) apply(op SOp) {
 			h.closeSpec(old, "UpdateHandlerSpec")
 			if !x.failed() {
 				other.orphan = true
-				if other.lg != nil {
-					other.lg.afterSig = sigOrphanAfterUpdate
+				for _, tg := range other.targets {
+					tg.lg.afterSig = sigOrphanAfterUpdate
 				}
 				h.closeSpec(other, "UpdateHandlerSpec onto its id")
 			}
@@ -811,6 +1130,10 @@ func (h *svcHarness) apply(op SOp) {
 			x.fail("topic/close-error", "CloseTopic(%s): %v", name, err)
 			return
 		}
+		if !h.persist {
+			x.label("close-without-persistence")
+		}
+		st.reopened, st.restoredOpen = true, false
 		if !st.closed {
 			st.closed = true
 			st.closedStates = &mTopic{states: mt.states, order: mt.order}
@@ -830,6 +1153,7 @@ func (h *svcHarness) apply(op SOp) {
 		if st.closed {
 			x.label("restore-closed-topic")
 			h.restoreModel(st)
+			st.restoredOpen = true
 		}
 	case "delete":
 		if len(st.specs) > 0 {
@@ -844,8 +1168,8 @@ func (h *svcHarness) apply(op SOp) {
 			x.label("delete-topic-with-handler-specs")
 			for _, sp := range st.specs {
 				sp.topicDeleted = true
-				if sp.lg != nil {
-					sp.lg.missSig = sigDeadAfterDelete
+				for _, tg := range sp.targets {
+					tg.lg.missSig = sigDeadAfterDelete
 				}
 			}
 		}
@@ -854,7 +1178,7 @@ func (h *svcHarness) apply(op SOp) {
 			return
 		}
 		mt.clear()
-		st.closed, st.closedStates = false, nil
+		st.closed, st.closedStates, st.restoredOpen = false, nil, false
 		h.dropAnon(st, "DeleteTopic")
 	}
 }
@@ -867,9 +1191,9 @@ func afterSig(lg *ledger) string {
 }
 
 func (sp *mSpec) lgClose() {
-	if sp.lg != nil {
-		sp.lg.closed = true
-		sp.lg.verified = sp.lg.rec.count()
+	for _, tg := range sp.targets {
+		tg.lg.closed = true
+		tg.lg.verified = tg.lg.rec.count()
 	}
 }
 
@@ -900,13 +1224,21 @@ func (h *svcHarness) dropAnon(st *srcTopic, why string) {
 func (h *svcHarness) settle() {
 	ok := waitFor(func() bool {
 		for _, lg := range h.ledgers {
-			if !lg.closed && lg.rec.count() < len(lg.exp) {
+			if !lg.closed && !h.caughtUp(lg) {
 				return false
 			}
 		}
 		return true
 	}, deliveryBound)
 	for _, lg := range h.ledgers {
+		if lg.gated {
+			// blocked recorder: compared at the end of the history; here: its topic has collected the events
+			if !lg.closed && !ok && !h.caughtUp(lg) {
+				h.failCollected(lg)
+				return
+			}
+			continue
+		}
 		if lg.closed {
 			if n := lg.rec.count(); n != lg.verified {
 				h.x.fail(afterSig(lg), "%s was handed %d more events after its handler's registration had ended\nobserved: %s", lg.rec.name, n-lg.verified, fmtObs(lg.rec.snapshot()))
@@ -930,7 +1262,7 @@ func (h *svcHarness) query(op SOp) {
 		checkTopic(h.x, v, name, h.model[name], eventIDs)
 		if h.x.failed() {
 			for _, sp := range h.specs {
-				if sp.orphan && sp.sink == name {
+				if sp.orphan && sp.publishesTo(name) {
 					h.x.resig(sigOrphanAfterUpdate, "the target topic of a handler whose id was taken over by an update of another handler still receives events")
 				}
 			}
@@ -961,6 +1293,18 @@ func (h *svcHarness) aggSum() (sum int, bad string) {
 
 func (h *svcHarness) finish() {
 	x := h.x
+	// the slow handlers proceed (their ledgers are compared after Close, when their queues have been drained)
+	for _, sp := range h.specs {
+		for j, tg := range sp.targets {
+			if tg.lg.gated && len(tg.lg.exp) > tg.lg.gateIdx+tg.lg.queueLen {
+				x.label("target-queue-overflow")
+				if j < len(sp.targets)-1 {
+					x.label("queue-overflow-on-earlier-target")
+				}
+			}
+		}
+	}
+	h.releaseGates()
 	if h.agg != nil {
 		x.at("end of history: waiting for the aggregate handler (interval %v)", aggInterval)
 		if !waitFor(func() bool { s, _ := h.aggSum(); return s >= h.aggExpected }, deliveryBound) {
@@ -997,10 +1341,31 @@ func (h *svcHarness) finish() {
 	if x.failed() {
 		return
 	}
+	// republished exactly once: a target topic has collected as many events as its publish handler was handed
+	for _, sp := range h.specs {
+		for _, tg := range sp.targets {
+			if ts, ok, _ := h.as.TopicState(tg.topic); ok && ts.Collected != int64(len(tg.lg.exp)) {
+				sig := "delivery/duplicate"
+				if ts.Collected < int64(len(tg.lg.exp)) {
+					sig = "delivery/missing"
+				}
+				x.fail(sig, "target topic %s of publish handler %s has collected %d events, %d events were collected on the source topic while the handler was registered and its match condition held", tg.topic, sp.id, ts.Collected, len(tg.lg.exp))
+				return
+			}
+		}
+	}
 	x.at("end of history: Close")
 	h.beforeDrain(nil)
 	h.as.Close()
 	for _, lg := range h.ledgers {
+		if lg.gated {
+			// a handler that was blocked for a while: exactly once and FIFO except for what its full queue refused
+			verifyLedger(x, lg, lg.mayMiss(), map[string]int{})
+			if x.failed() {
+				return
+			}
+			continue
+		}
 		if lg.closed {
 			if n := lg.rec.count(); n != lg.verified {
 				x.fail(afterSig(lg), "%s was handed %d more events after its handler's registration had ended\nobserved: %s", lg.rec.name, n-lg.verified, fmtObs(lg.rec.snapshot()))
@@ -1065,7 +1430,7 @@ func runService(c ServiceCase, cc *kit.Case) {
 			x.fail("harness/env", "bolt: %v", err)
 			return
 		}
-		as := salert.NewService(kit.DiagService.NewAlertServiceHandler(), nil, alert.MinimumEventBufferSize) // topic-buffer-length: the smallest queue (cheap to allocate)
+		as := salert.NewService(kit.DiagService.NewAlertServiceHandler(), nil, svcBuffer) // topic-buffer-length: the smallest queue (cheap to allocate)
 		as.StorageService = store
 		as.HTTPDService = kit.HTTPDStub{}
 		as.PersistTopics = c.Persist
@@ -1086,8 +1451,15 @@ func runService(c ServiceCase, cc *kit.Case) {
 		if noSettle {
 			x.label("no-settle")
 		}
-		h := &svcHarness{witness: c.Witness, x: x, as: as, dir: dir, model: map[string]*mTopic{}, src: map[string]*srcTopic{}}
+		h := &svcHarness{witness: c.Witness, persist: c.Persist, x: x, as: as, dir: dir, model: map[string]*mTopic{}, src: map[string]*srcTopic{}}
 		defer func() {
+			h.releaseGates()
+			if h.updatedAfterRestore {
+				switch x.sigNow() {
+				case "topic/state-content", "topic/vanished", "topics/listing", "topics/level-view-incomplete", "delivery/previous-level":
+					x.resig(sigUpdateLostAfterRestore, "an event state set by UpdateEvent after RestoreTopic is gone after the next Collect on the topic (persist-topics disabled)")
+				}
+			}
 			if !closed {
 				// failed case: stop the aggregate goroutine and the topics (not waited for: the service may be stuck)
 				go func() {
@@ -1173,9 +1545,15 @@ func fmtSOp(op SOp) string {
 	case "update":
 		return fmt.Sprintf("update %s %s:%s", name, eventIDs[op.I%4], lvl(op.L%4))
 	case "reg":
-		return fmt.Sprintf("register spec %s/%s kind=%d match=%q", name, specIDs[op.H%len(specIDs)], op.Kind, op.Match.render())
+		return fmt.Sprintf("register spec %s/%s kind=%d targets=%d match=%q", name, specIDs[op.H%len(specIDs)], op.Kind, 1+op.Nt%3, op.Match.render())
 	case "upd":
-		return fmt.Sprintf("update spec %s/%s -> %s kind=%d match=%q", name, specIDs[op.H%len(specIDs)], specIDs[op.H2%len(specIDs)], op.Kind, op.Match.render())
+		return fmt.Sprintf("update spec %s/%s -> %s kind=%d targets=%d match=%q", name, specIDs[op.H%len(specIDs)], specIDs[op.H2%len(specIDs)], op.Kind, 1+op.Nt%3, op.Match.render())
+	case "gate":
+		return fmt.Sprintf("block the handler of target %d of publish handler %s/%s", op.J, name, specIDs[op.H%len(specIDs)])
+	case "burst":
+		return fmt.Sprintf("burst %s %d events", name, svcBuffer+op.N)
+	case "restart":
+		return fmt.Sprintf("restart %s (close, anon=%v, restore)", name, op.H2 == 1)
 	case "dereg":
 		return fmt.Sprintf("deregister spec %s/%s", name, specIDs[op.H%len(specIDs)])
 	case "anon", "deanon":
@@ -1187,10 +1565,15 @@ func fmtSOp(op SOp) string {
 var serviceAssumptions = []string{
 	"a match condition on a tag (\"host\" == 'db01') is generated only as the whole condition or as a conjunct of it; an event without that tag does not satisfy it",
 	"match functions (no user documentation in the repository; names and closures in services/alert/handlers.go): changed() = the event's level differs from the level of the preceding event with the same id on the topic (OK if none), level() = the event's level with OK<INFO<WARNING<CRITICAL, name() = measurement name, taskName() = task name, alertDuration() = the event's duration (the function called duration() in the property text was renamed, CHANGELOG #2448)",
-	"handlers are observed through private targets: a publish handler republishes to its own sink topic that carries an anonymous recording handler (RegisterAnonHandler); a log handler appends alert.Data JSON to its own file; log is an external handler and skips events flagged NoExternal (externalHandler doc comment)",
+	"handlers are observed through private targets: a publish handler republishes to 1-3 sink topics of its own (option topics), each carrying an anonymous recording handler (RegisterAnonHandler), and every event it is handed must be collected on every one of them; a log handler appends alert.Data JSON to its own file; log is an external handler and skips events flagged NoExternal (externalHandler doc comment)",
 	"for the first event with some id on a publish target the previous level may be OK or the previous level it had on the source topic (the statement does not say which)",
 	"aggregate (wall-clock ticker, interval 20 ms): only conservation of counts, id/topic of the aggregated events and the overall highest level are checked, after a bounded wait; the aggregate handler has no match expression (the match wrapper hides its Close: it would leak its goroutine and ticker in the test process) and is never updated or removed mid-history (its Close discards what it has buffered)",
-	"CloseTopic/RestoreTopic are generated only with persist-topics enabled and RestoreTopic only on a closed or still empty topic (alert.go runAlert); across close/restore an event whose latest state is OK may be present or absent (Collect deletes an OK state from the store)",
+	"CloseTopic/RestoreTopic are generated with persist-topics enabled and disabled, RestoreTopic only on a closed or still empty topic (alert.go runAlert); 'restart' is CloseTopic, RegisterAnonHandler (optional), RestoreTopic - what alert.go runAlert does with the topic of a task that is stopped and started again; across close/restore an event whose latest state is OK may be present or absent (Collect deletes an OK state from the store)",
+	"persist-topics disabled (services/alert/config.go: 'whether we persist the alert topics to BoltDB or not'): the statement does not say whether a closed topic remembers its event states, so every state from before the close may be present or absent afterwards and the previous level of the next event with that id may be that level or OK; an event for which a match expression of a handler of the topic decides differently under the two readings is not collected (label skipped:match-depends-...). What is asserted in full: the handlers defined by handler specs stay registered across close/restore and are handed every later event",
+	"slow handler: the recording handler of one target topic of a publish handler blocks from some step until the end of the history. topic-buffer-length is 1000 (alert.MinimumEventBufferSize, the smallest the service accepts): the first 1000 events republished after it blocked must reach it, later ones may have been refused by its full queue (bufHandler.Handle 'failed to deliver event'; the publish handler does not pass the refusal on) - exactly once and FIFO for the rest, compared after Close has drained the queues; every such event must still be collected on that target topic (state, level) and on all other target topics of the handler",
+	"TopicState.Collected (API field 'collected'; alert/topics.go Topic.collect) counts the events collected on a topic since it was created: used to await republication to a target whose recording handler is blocked, and at the end of the history every target topic of a publish handler must have collected exactly as many events as the handler was handed",
+	"burst (1001-1040 events on one source topic): only events that every handler of the source topic is handed (match expressions true, not NoExternal for log) are collected, and every 250 events the harness waits until all of them have been handled (recorders, log lines, aggregate sum): otherwise a handler queue of the source topic itself could overflow and Collect on the source topic would rightly report an error",
+	"known finding service/update-event-lost-after-restore-topic avoided by construction (counted): no UpdateEvent between the RestoreTopic of a closed topic and the next Collect on it while persist-topics is disabled",
 	"UpdateEvent only on topics the API reports as existing and that are not closed; UpdateHandlerSpec only for an existing handler (API precondition); updating a handler onto the id of another handler of the topic may be refused (no change) or replace both",
 	"closing or deleting a topic ends the registration of its anonymous handlers (alert.go registers them again at task start); handler specs stay registered on the topic",
 }
